@@ -9,14 +9,14 @@ export VERIF_DIR=/verif
 mkdir -p evidence replays
 
 build_harness() {
-  if ! (cd harness && cargo build --release --offline >../target/build-harness.log 2>&1); then
+  if ! ./build.sh harness; then
     echo "INCONCLUSIVE property=$1 reason=build-failed (harness or /repo/crates/typstyle-core does not compile)"
     grep -E '^error' -A6 target/build-harness.log | head -30
     exit 2
   fi
 }
 build_cli() {
-  if ! cargo build --release --offline --manifest-path /repo/Cargo.toml -p typstyle --target-dir /verif/target-cli >target/build-cli.log 2>&1; then
+  if ! ./build.sh cli; then
     echo "INCONCLUSIVE property=$1 reason=build-failed (/repo's CLI does not compile)"
     grep -E '^error' -A6 target/build-cli.log | head -30
     exit 2
@@ -34,7 +34,7 @@ PROP="${1:?property id}"
 TIER="${2:-quick}"
 build_harness "$PROP"
 case "$PROP" in
-  C14|C15|C16) build_cli "$PROP" ;;
+  C11|C14|C15|C16|C17) build_cli "$PROP" ;;
 esac
 
 # sanitizer tiers (thorough only): their reports are handed to the check, which turns them into violations/evidence
